@@ -450,6 +450,6 @@ META = {
             "ill-typed, must map to the value XSD assigns (independent reference), normalisation must keep the value and be idempotent; eq() is compared "
             "with Python equality on a pair table.",
     "note": "Oracle = own transcription of the XSD 1.1 lexical productions and value maps; strings of <=4 (quick) / <=5 (thorough) characters; only valid forms "
-            "are constrained; Python-unrepresentable values only checked for ill_typed.",
+            "are constrained; Python-unrepresentable values only checked for ill_typed; normalisation through the constructor and through normalize(), on literals made from forms and from Python values.",
     "technique": "exhaustive enumeration of boundary values and short lexical strings against an independent XSD lexical/value reference",
 }
